@@ -241,27 +241,74 @@ def sweep_events(ctx, n_frames, start_id):
     return events
 
 
+GO_DERIVE = {
+    'round': lambda f: round(f, 1), 'neg': lambda f: -f, 'abs': lambda f: abs(f), 'add1': lambda f: f + 1, 'clip': lambda f: f.clip(lower=0, upper=2),
+    'fillna': lambda f: f.fillna(0), 'iloc_all': lambda f: f.iloc[:, :], 'transpose2': lambda f: f.T.T, 'sort_columns': lambda f: f.sort_columns(ascending=False),
+    'rename': lambda f: f.rename('r'), 'roll': lambda f: f.roll(1, 1), 'shift': lambda f: f.shift(0, 1, fill_value=f.iloc[0, 0]), 'astype_same': lambda f: f.astype(f.dtypes.values[0]),
+    'round0': lambda f: round(f), 'round_neg': lambda f: round(f, -1), 'relabel': lambda f: f.relabel(columns=lambda c: c), 'relabel_index': lambda f: f.relabel(index=lambda c: c),
+    'getitem_all': lambda f: f[list(f.columns)], 'reindex_cols': lambda f: f.reindex(columns=list(f.columns)[::-1]), 'drop_none': lambda f: f.drop[[]],
+}
+
+
+def _go_history(rng, f, lay):
+    '''a grow-only Frame of ONE dtype, a Frame derived from it by a class-preserving call, then growth of both by different widths: the Frame
+    that is read afterwards must still be one coherent table (each keeps its own column -> block map)'''
+    src = P.build_frame(f, lay, cls=sf.FrameGO)
+    name = rng.choice(sorted(GO_DERIVE))
+    res = GO_DERIVE[name](src)
+    if not isinstance(res, sf.FrameGO):
+        res = res.to_frame_go()
+    k_src, k_res = rng.choice([(1, 2), (2, 1), (0, 2), (2, 0), (1, 3)])
+    for target, k, tag in ((src, k_src, 's'), (res, k_res, 'r')):
+        dt = target.dtypes.values[0]
+        for j in range(k):
+            target['%s_new%d' % (tag, j)] = np.full(len(target.index), j + 7).astype(dt)
+    return (src if rng.random() < 0.5 else res), name
+
+
 def routes_events(ctx, n, start_id):
     events = []
     rng = ctx.rng
     for i in range(n):
-        f = C.rand_frame(rng, 4, 5, kinds=rng.choice(['if', 'ifb', 'ifbUO', 'iU', 'fO']), na=0.2,
-                         index_kind=rng.choice(['str', 'int', 'auto']), columns_kind='str')
-        lay = C.rand_layout(rng, f)
-        fr = P.build_frame(f, lay)
-        nr, nc = len(f['index']), len(f['columns'])
-        ev = {'id': start_id + i, 'kind': 'routes', 'layout': lay,
+        derived = None
+        if rng.random() < 0.5:
+            f = C.rand_frame(rng, 4, 5, kinds=rng.choice(['i', 'f']), na=0.2, min_rows=1, min_cols=1, index_kind=rng.choice(['str', 'int']), columns_kind='str')
+            lay = C.rand_layout(rng, f)
+            try:
+                fr, derived = _go_history(rng, f, lay)
+            except Exception as e:
+                ctx.violation('V', 'growing a FrameGO and a Frame derived from it raised', case={'f': f, 'layout': lay}, actual=P.proj_err(e), clause='go_history_error')
+                continue
+            ctx.count('V_routes_go_history')
+        else:
+            f = C.rand_frame(rng, 4, 5, kinds=rng.choice(['if', 'ifb', 'ifbUO', 'iU', 'fO']), na=0.2,
+                             index_kind=rng.choice(['str', 'int', 'auto']), columns_kind='str')
+            lay = C.rand_layout(rng, f)
+            fr = P.build_frame(f, lay)
+        nr, nc = len(fr.index), len(fr.columns)
+
+        def read(fn, fail):
+            '''a route that raises is recorded as a reading that cannot match (named by the verdict)'''
+            try:
+                return fn()
+            except Exception:
+                if derived is None:
+                    raise
+                return fail
+
+        def elements():
+            it = iter(fr.iter_element())
+            return [[P.enc(next(it)) for _ in range(nc)] for _ in range(nr)]
+        ev = {'id': start_id + i, 'kind': 'routes', 'layout': lay, 'derived': derived or '',
               'f': {'index': P.labels_of(fr.index), 'columns': P.labels_of(fr.columns),
                     'cols': [{'dt': P.enc_dtype(a.dtype), 'vals': P.enc_array(a)} for a in P.raw_columns(fr)]},
-              'shape': list(fr.shape),
-              'values': [P.enc_array(r) for r in fr.values] if nc else [[] for _ in range(nr)],
-              'cells': [[P.enc(fr.iloc[i, j]) for j in range(nc)] for i in range(nr)],
-              'iter_array': [{'dt': P.enc_dtype(a.dtype), 'vals': P.enc_array(a)} for a in fr.iter_array(axis=0)],
-              'iter_series': [{'label': P.enc(s.name), 'index': P.labels_of(s.index), 'dt': P.enc_dtype(s.values.dtype), 'vals': P.enc_array(s.values)} for s in fr.iter_series(axis=0)],
-              'iter_element': [[None] * nc for _ in range(nr)],
-              'to_pairs': [[P.enc(k), [[P.enc(a), P.enc(b)] for a, b in v]] for k, v in fr.to_pairs(axis=0)]}
-        it = iter(fr.iter_element())
-        ev['iter_element'] = [[P.enc(next(it)) for _ in range(nc)] for _ in range(nr)]
+              'shape': read(lambda: list(fr.shape), [-1, -1]),
+              'values': read(lambda: [P.enc_array(r) for r in fr.values] if nc else [[] for _ in range(nr)], []),
+              'cells': read(lambda: [[P.enc(fr.iloc[i, j]) for j in range(nc)] for i in range(nr)], []),
+              'iter_array': read(lambda: [{'dt': P.enc_dtype(a.dtype), 'vals': P.enc_array(a)} for a in fr.iter_array(axis=0)], []),
+              'iter_series': read(lambda: [{'label': P.enc(s.name), 'index': P.labels_of(s.index), 'dt': P.enc_dtype(s.values.dtype), 'vals': P.enc_array(s.values)} for s in fr.iter_series(axis=0)], []),
+              'iter_element': read(elements, []),
+              'to_pairs': read(lambda: [[P.enc(k), [[P.enc(a), P.enc(b)] for a, b in v]] for k, v in fr.to_pairs(axis=0)], [])}
         events.append(ev)
     return events
 
@@ -329,7 +376,7 @@ def main(ctx):
         ctx.count('V_ops_cases')
     # ---- V (b) + (c)
     sw = xl + sweep_events(ctx, 80 if quick else 1500, len(xl))
-    ro = routes_events(ctx, 300 if quick else 6000, len(sw))
+    ro = routes_events(ctx, 500 if quick else 8000, len(sw))
     rej = ctx.validate_events('Trace_C03', 'Trace.cfg', sw + ro, chunk=600)
     for ev in sw + ro:
         if ev['id'] in rej:
